@@ -22,6 +22,9 @@ CASE_CFGS = {"quick": [("MC_Validate_Quick.cfg", {"MaxFields": 2, "MaxDev": 1, "
              "thorough": [("MC_Validate_T1.cfg", {"MaxFields": 3, "MaxDev": 1, "VaryBase": False}, 2),
                           ("MC_Validate_T3.cfg", {"MaxFields": 2, "MaxDev": 1, "VaryBase": True}, 3),
                           ("MC_Validate_T2.cfg", {"MaxFields": 2, "MaxDev": 2, "VaryBase": False}, 1)]}
+# every public way of writing a typed message (StylesOf in Validate.tla) is executed for each case of these configurations;
+# for the others one style per (case, witness), rotating
+ALL_STYLES_CFGS = {"MC_Validate_Quick.cfg", "MC_Validate_T3.cfg"}
 CAP_CFGS = {"quick": [("MC_Validate_Capture.cfg", {"MaxTests": 2, "RichCapture": True})],
             "thorough": [("MC_Validate_Capture.cfg", {"MaxTests": 2, "RichCapture": True}),
                          ("MC_Validate_Capture3.cfg", {"MaxTests": 3, "RichCapture": False})]}
@@ -131,7 +134,8 @@ def check_cases(rep, tier, prop):
             c["idx"] = i
         order = list(range(len(cases)))
         random.Random(SEED).shuffle(order)
-        jobs = [{"seed": SEED, "nwit": nwit, "cases": [cases[i] for i in part]} for part in split(order, NPROC * 3)]
+        jobs = [{"seed": SEED, "nwit": nwit, "cases": [cases[i] for i in part], "all_styles": cfg in ALL_STYLES_CFGS}
+                for part in split(order, NPROC * 3)]
         outs = run_jobs(jobs)
         seen, reported = set(), set()
         executed = 0
